@@ -18,7 +18,7 @@ import time
 
 VERIF = os.path.dirname(os.path.dirname(os.path.abspath(__file__)))
 REPO = os.environ.get("LAYTHE_REPO", "/repo")
-FACTS_DIR = os.path.join(VERIF, ".facts")
+FACTS_DIR = os.environ.get("LAYTHE_FACTS", os.path.join(VERIF, ".facts"))
 LYMIR = os.path.join(VERIF, "engines/lymir/target/release/lymir")
 LYSYN = os.path.join(VERIF, "engines/lysyn/target/release/lysyn")
 
@@ -296,8 +296,8 @@ class Fn:
             return False
         if dst not in self.dom[target]:
             return False
-        ps = [p for p in self.preds[dst] if p in self.reachable]
-        return ps == [src]
+        ps = set(p for p in self.preds[dst] if p in self.reachable)
+        return ps == {src}
 
     @property
     def defs(self):
